@@ -308,7 +308,6 @@ public:
     generator<std::size_t> interval(std::chrono::duration<A,B> dur, std::stop_token token = {}) {
         bool tag;
         std::stop_callback stpc(token,[&]{
-            std::lock_guard _(_mx);
             this->cancel(&tag);
         });
         std::size_t counter;
